@@ -1,4 +1,5 @@
 import PyemvGen.Mod.Common
+import PyemvProps.C07
 import PyemvGen.Mod.mac_pad2
 import PyemvGen.Mod.tools_ecb
 import PyemvGen.Mod.tools_cbc
@@ -13,5 +14,13 @@ theorem sm_encrypt_command_data (sk d : Bytes) (t : EncryptionType) :
   · simp only [h, ne_eq, not_true_eq_false, if_false]
     cases t <;> simp [throw, throwThe, MonadExceptOf.throw] <;> repeat (first | rfl | split) <;> simp_all
   · simp [h, throw, throwThe, MonadExceptOf.throw]
+
+/-- **C07 about the translated source**: each scheme enciphers its documented frame -/
+theorem source_encrypt_command_data (sk d : Bytes) (hsk : sk.length = 16) :
+    (d.length ≤ 255 → Gen.sm.encrypt_command_data sk d .visa = .ok (ecbUpdate (Spec.tdesE sk) (C07.visaFrame d))) ∧
+    Gen.sm.encrypt_command_data sk d .emv = .ok (cbcEncUpdate (Spec.tdesE sk) (zeros 8) (C07.emvFrame d)).1 ∧
+    Gen.sm.encrypt_command_data sk d .mastercard = .ok (cbcEncUpdate (Spec.tdesE sk) (zeros 8) (C07.mcFrame d)).1 := by
+  simp only [sm_encrypt_command_data]
+  exact ⟨fun hd => C07.enc_visa_eq sk d hsk hd, C07.enc_emv_eq sk d hsk, C07.enc_mc_eq sk d hsk⟩
 
 end Pyemv.ModRefines
